@@ -26,6 +26,7 @@ where
         ::std::io::BufReader::new(::std::fs::File::from_raw_fd(client_reader.as_raw_fd()))
     };
 
+    let resolver_address = String::from(resolver);
     let mut resolver = VarlinkClient::new(conn);
 
     let mut upgraded = false;
@@ -74,7 +75,7 @@ where
 
             if iface != last_iface {
                 if iface.eq("org.varlink.resolver") {
-                    address = String::from("unix:/run/org.varlink.resolver");
+                    address.clone_from(&resolver_address);
                 } else {
                     address = match resolver.resolve(iface.clone()).call() {
                         Ok(r) => r.address,
